@@ -387,4 +387,55 @@ example : (demo.addPolicy "p" "p" ["alice", "allow"]).2 = false ∧
   decide
 example : (demo.getPolicy "p" "p").Nodup := by decide
 
+
+/-! ### the order inside an accepted batch -/
+
+/-- the rules of a batch in the order of their first occurrence, those already seen left out -/
+def firstOcc {α : Type} [DecidableEq α] : List α → List α → List α
+  | _, [] => []
+  | seen, v :: vs => if v ∈ seen then firstOcc seen vs else v :: firstOcc (v :: seen) vs
+
+theorem firstOcc_congr {α : Type} [DecidableEq α] (vs : List α) (a b : List α) (h : ∀ x, x ∈ a ↔ x ∈ b) :
+    firstOcc a vs = firstOcc b vs := by
+  induction vs generalizing a b with
+  | nil => rfl
+  | cons v vs ih =>
+    simp only [firstOcc]
+    by_cases hv : v ∈ a
+    · have hv' : v ∈ b := (h v).mp hv
+      simp only [hv, hv', if_true]
+      exact ih a b h
+    · have hv' : v ∉ b := fun hb => hv ((h v).mpr hb)
+      simp only [hv, hv', if_false]
+      congr 1
+      exact ih _ _ (fun x => by simp only [List.mem_cons]; rw [h x])
+
+/-- **the order a batch is stored in**: the old rules, then the new ones in the order of their first occurrence in
+the batch — a rule named twice keeps the place of its first mention (`replace`, not `insert`) -/
+theorem addAll_order {α : Type} [DecidableEq α] (s rs : List α) : OrdSet.addAll s rs = s ++ firstOcc s rs := by
+  induction rs generalizing s with
+  | nil => simp [OrdSet.addAll, firstOcc]
+  | cons v vs ih =>
+    simp only [OrdSet.addAll, OrdSet.add, firstOcc]
+    by_cases hv : v ∈ s
+    · simp only [hv, if_true]; exact ih s
+    · simp only [hv, if_false]
+      rw [ih (s ++ [v]), firstOcc_congr vs (s ++ [v]) (v :: s) (by intro x; simp [or_comm])]
+      simp
+
+/-- an accepted batch appends its rules in first-occurrence order -/
+theorem addMany_order (s : Store) (sec pt : String) (rs : List Rule) (d : PolDef)
+    (h : s.find sec pt = some d) (hnew : ∀ r ∈ rs, r ∉ d.policy) :
+    (s.addPolicies sec pt rs).1.getPolicy sec pt = d.policy ++ firstOcc d.policy rs := by
+  unfold Store.addPolicies
+  simp only [h]
+  have : rs.any (fun r => decide (r ∈ d.policy)) = false := by
+    simp only [List.any_eq_false, decide_eq_true_eq]; exact hnew
+  simp only [this, Bool.false_eq_true, if_false]
+  rw [Store.getPolicy_update s sec pt sec pt (fun pol => OrdSet.addAll pol rs)]
+  simp only [and_self, if_true, h]
+  exact addAll_order _ _
+
+example : firstOcc ([] : List Nat) [1, 2, 1, 3, 2] = [1, 2, 3] := by decide
+
 end Casbin.C04
